@@ -739,6 +739,8 @@ pub struct Inner {
     /// offered apps of the most recent plan (for the installer contract).
     pub last_offered: usize,
     pub log_storage_gets: bool,
+    /// the installer issues all its progress reports at once (joined) instead of one after the other
+    pub concurrent_progress: bool,
 }
 
 pub type W = Arc<Mutex<Inner>>;
@@ -867,6 +869,7 @@ pub fn new_world(director: Box<dyn Director>, blocking: Blocking, store: Store) 
         n_reqs: 0,
         last_offered: 0,
         log_storage_gets: false,
+        concurrent_progress: false,
     }))
 }
 
@@ -1275,7 +1278,21 @@ impl Installer for VInstaller {
                 d.install(wi, &install_plan.id, install_plan.offered)
             });
             let n_progress = script.progress.len();
-            for (pi, p) in script.progress.iter().enumerate() {
+            let concurrent = w.lock().unwrap().concurrent_progress;
+            if concurrent && n_progress > 0 {
+                if let Some(o) = observer {
+                    maybe_block(&w, |b| b.progress, OpKind::Progress, 0).await;
+                    for p in &script.progress {
+                        w.lock().unwrap().log.push(Obs::ProgressSent(*p));
+                    }
+                    // one report per package, all in flight together (each call has its own channel slot)
+                    futures::future::join_all(script.progress.iter().map(|p| o.receive_progress(None, *p, None, None))).await;
+                    for p in &script.progress {
+                        w.lock().unwrap().log.push(Obs::ProgressAcked(*p));
+                    }
+                }
+            }
+            for (pi, p) in script.progress.iter().enumerate().filter(|_| !(concurrent && observer.is_some())) {
                 maybe_block(&w, |b| b.progress, OpKind::Progress, 0).await;
                 w.lock().unwrap().log.push(Obs::ProgressSent(*p));
                 if let Some(o) = observer {
